@@ -98,6 +98,18 @@ func (*BaseNode).SetPreviousSibling
   ensures n.prev == v
   modifies n.prev
 
+// ---- attributes and flags read by the renderers ----
+ghost strIsCode(flags int) bool     // the "render as is" bit of a String node's flags
+func (*String).IsCode
+  ensures result <==> strIsCode(n.flags)
+  modifies nothing
+iface ast.Node.Attributes
+  ensures sameslice(result, bn(recv).attributes)
+  modifies nothing
+func (*BaseNode).Attributes
+  ensures sameslice(result, n.attributes)
+  modifies nothing
+
 // ---- mutators ----
 // removal of v from its parent q (if any): all later children of q move up by one
 macro rmLen(p, v)    = ((par(v) != nil && p == par(v)) ? klen(p) - 1 : klen(p))
